@@ -47,7 +47,7 @@ def _run_one(o, excludes, T=None):
     try:
         p = subprocess.run(
             ["timeout", "-k", "10", str(cap)] + cmd, cwd=HERE, capture_output=True, text=True,
-            env=dict(os.environ, PYTHONPATH=HERE, PYTHONHASHSEED="0"),
+            env=dict(os.environ, PYTHONPATH=os.environ.get("PYTHONPATH") or HERE, PYTHONHASHSEED="0"),
         )
         for line in p.stdout.splitlines()[::-1]:
             if line.startswith("RESULT "):
